@@ -70,6 +70,12 @@ func mutations(v *ref.Val, yield func(m *ref.Val, what string)) {
 				yield(rebuild(&ref.Val{K: ref.Arr, A: append(append([]*ref.Val(nil), cur.A...), cur.A[0])}), "lengthen "+path)
 			}
 			yield(rebuild(&ref.Val{K: ref.Arr, A: append(append([]*ref.Val(nil), cur.A...), &ref.Val{K: ref.Null})}), "append null "+path)
+			if len(cur.A) == 0 {
+				// an empty array has no element to repeat: try one of every JSON type
+				for _, s := range swapPool {
+					yield(rebuild(&ref.Val{K: ref.Arr, A: []*ref.Val{s}}), "append value "+path)
+				}
+			}
 			for i, e := range cur.A {
 				i := i
 				walk(e, func(n *ref.Val) *ref.Val {
@@ -314,10 +320,13 @@ func Run(r *ev.Run) {
 					}
 				}
 			}
-			if strings.HasPrefix(what, "shorten ") || strings.HasPrefix(what, "lengthen ") || strings.HasPrefix(what, "append null ") {
+			if strings.HasPrefix(what, "shorten ") || strings.HasPrefix(what, "lengthen ") || strings.HasPrefix(what, "append null ") || strings.HasPrefix(what, "append value ") {
 				path := what[strings.Index(what, " ")+1:]
 				if strings.HasPrefix(what, "append null ") {
 					path = strings.TrimPrefix(what, "append null ")
+				}
+				if strings.HasPrefix(what, "append value ") {
+					path = strings.TrimPrefix(what, "append value ")
 				}
 				if pt := typeAt(t.Type, path); pt != nil && pt.Kind() == reflect.Array {
 					r.Fail(dkey, map[string]any{"class": "array of the wrong length accepted for a Go array", "mutation": what, "go_type_at_position": pt.String()})
